@@ -11,6 +11,9 @@ var checks = map[string]func(*Ctx){
 	"C12":    runC12,
 	"C13":    runC13,
 	"C10":    runC10,
+	"C20":    runC20,
+	"C15":    runC15,
+	"C17":    runC17,
 	"C09":    runC09,
 	"C08":    runC08,
 	"C06":    runC06,
